@@ -322,4 +322,30 @@ def widgetRender (vs : SizeReq → Int × Int) (fit : Bool) (arg : SizeArg) (ren
     if hasPlaceholder then .placeholder [size.1, size.2] else .raised
   else .image size.1 size.2 sizes.2.1 sizes.2.2
 
+/-! ## the canvas is a value: `content` at a later time -/
+
+/-- what `content` can still read from the *widget* (through `widget_info[0]`) when it is called, possibly
+    long after the canvas was rendered: the two alignments, and the image with whatever size it has NOW -/
+structure WidgetState where
+  hAlign : Align               -- `widget._ti_h_align` (set once in `__init__`)
+  vAlign : Align               -- `widget._ti_v_align`
+  imageSize : Int × Int        -- `widget._ti_image._size` / `.rendered_size` at the time of the call
+deriving Repr
+
+/-- what the canvas object itself holds since `__init__`: `size`, `_ti_image_size`, `_ti_lines` -/
+structure CanvasVal where
+  cols : Int
+  rows : Int
+  imgCols : Int
+  imgRows : Int
+  lines : List (List Tok)
+deriving Repr
+
+/-- `canvas.content(…)` called in widget state `ws`: sizes and lines come from the canvas
+    (`image_size = self._ti_image_size`), only the alignments from the widget; the image's current
+    size is not read -/
+def contentAt (ws : WidgetState) (cv : CanvasVal) (trimLeft trimTop cols rows : Int) : Except Err (List Row) :=
+  textContent { cols := cv.cols, rows := cv.rows, imgCols := cv.imgCols, imgRows := cv.imgRows, lines := cv.lines,
+                hAlign := ws.hAlign, vAlign := ws.vAlign } trimLeft trimTop cols rows
+
 end TIV.C17
